@@ -207,7 +207,14 @@ func (x *TExec) opConnect(st *TStep) { //nolint:cyclop
 		return
 	}
 	if !ok {
-		x.fail([]string{"X00"}, "connect-unexpectedly-refused", "Connect to %v answered with %s", p, respDesc(resp))
+		props := []string{"X00"}
+		for _, o := range x.w.clients {
+			if o != c && o.alloc != nil && o.alloc.liveTo(p) != nil && resp != nil && resp.ErrorCode() == 446 {
+				// refused because ANOTHER allocation has a connection to that peer
+				props = []string{"C04", "C16"}
+			}
+		}
+		x.fail(props, "connect-unexpectedly-refused", "Connect to %v answered with %s although this allocation has no connection to that peer", p, respDesc(resp))
 
 		return
 	}
@@ -318,7 +325,7 @@ func (x *TExec) opPeerConnect(st *TStep) {
 		return
 	}
 	if len(attempts) != 1 {
-		x.fail([]string{"C02", "C16"}, "connection-attempt-missing", "a permitted inbound connection from %v produced %d ConnectionAttempt indications", peerSrc, len(attempts))
+		x.fail([]string{"C02", "C16", "C04"}, "connection-attempt-missing", "a permitted inbound connection from %v produced %d ConnectionAttempt indications", peerSrc, len(attempts))
 
 		return
 	}
@@ -400,7 +407,7 @@ func (x *TExec) opConnectionBind(st *TStep) { //nolint:cyclop
 	}
 	if !ok {
 		if want {
-			x.fail([]string{"C16"}, "connectionbind-refused", "ConnectionBind for pending id %#x by the allocation's user within 30 s answered with %s", id, respDesc(resp))
+			x.fail([]string{"C16", "C03"}, "connectionbind-refused", "ConnectionBind for pending id %#x by the allocation's user within 30 s answered with %s", id, respDesc(resp))
 
 			return
 		}
